@@ -802,6 +802,19 @@ def gen_param_case(rng):
         for k, tag in (("time_begin", "int"), ("time_end", "int"), ("antialiased", "bool"), ("axis_visible", "bool")):
             if rng.random() < 0.5:
                 kw[k] = rand_scalar(rng, k, tag, False)
+    if rng.random() < 0.25:
+        # a group built earlier (for another frame) and carrying a window of its own is handed to the constructor, with
+        # the window of the new frame given at the top level - explicitly, and often with the values that happen to be
+        # the defaults (seed C19-16: "equal to the default" taken for "not given")
+        tops = [q[0] for q, cls in table.items() if len(q) == 1]
+        if tops:
+            g = rng.choice(sorted(tops))
+            kw[g] = {"t": "node", "cls": table[(g,)], "set": [["time_begin", {"t": "int", "v": rng.choice([5, 3, 40])}],
+                                                            ["time_end", {"t": "int", "v": rng.choice([8, 60, 199])}]]}
+            if rng.random() < 0.6:
+                kw["time_begin"], kw["time_end"] = {"t": "int", "v": 0}, {"t": "int", "v": 200}
+            if rng.random() < 0.3:
+                kw["antialiased"] = {"t": "bool", "v": True}
     n = rng.randint(1, 6)
     ops = [rand_op(rng, table, False, False) for _ in range(n)]
     if rng.random() < 0.45:
